@@ -1268,8 +1268,19 @@ fn check_spec_reserved_keys(key: &[u8], mut value: &[u8]) -> Result<(), Error> {
             // public keys are byte strings, exactly as the decoder reads them
             Header::decode_bytes(&mut value, false)?;
         }
-        _ => return Ok(()),
+        _ => {
+            // any other value must still be a well-formed RLP item
+            let header = Header::decode(&mut value)?;
+            if header.payload_length != value.len() {
+                return Err(Error::InvalidRlpData(DecoderError::UnexpectedLength));
+            }
+            return Ok(());
+        }
     };
+    // the value must be exactly one RLP item
+    if !value.is_empty() {
+        return Err(Error::InvalidRlpData(DecoderError::UnexpectedLength));
+    }
     Ok(())
 }
 
